@@ -117,7 +117,7 @@ class Verdicts:
 # ---------------------------------------------------------------------------------------------
 # process pool with per-case watchdog
 
-class CaseTimeout(Exception):
+class CaseTimeout(BaseException):
     pass
 
 
